@@ -82,6 +82,15 @@ def load_one(lit: LineIterator) -> dict:
                 result["bonds"] = bonds
     if not molecule_found:
         raise LoadError("Molecule could not be read.", lit)
+    if nbonds > 0 and "bonds" not in result:
+        warn(
+            LoadWarning(
+                f"The molecule record announces {nbonds} bonds, but no @<TRIPOS>BOND record "
+                "was found (truncated file?). The molecule is returned without bonds.",
+                lit,
+            ),
+            stacklevel=2,
+        )
     return result
 
 
